@@ -462,6 +462,21 @@ pub fn reclaim(seed: u64, n: usize, out: &mut Out) {
                 _ => break c,
             }
         };
+        // "late counter": a probabilistic store in the state it has after billions of writes, a few
+        // writes before its operation count times the multiplier passes a multiple of 2^64
+        let mut cfg = cfg;
+        let mut late_n = 0u64;
+        if let Cfg::Prob { cap, .. } = &cfg {
+            if rng.below(2) == 0 {
+                let modulus = rng.pick(&[3u64, 5, 6, 7, 10, 12, 100, 1000]);
+                let k = rng.range(1, 400) as u128;
+                let wrap = ((k << 64) / 2654435761u128) as u64;
+                let ops = wrap - rng.below(2 * modulus + 2);
+                cfg = Cfg::Prob { cap: *cap, modulus, ops };
+                late_n = modulus;
+                out.bump("reclaim_late_counter_sessions");
+            }
+        }
         let mut sess = new_session(&cfg, out);
         let lim = loop {
             let l = gen_lim_d(&mut rng);
@@ -470,7 +485,11 @@ pub fn reclaim(seed: u64, n: usize, out: &mut Out) {
             }
         };
         let life = 2 * lim.e() * lim.b as i128;
-        let steps_n = rng.range(200, 1500) as usize;
+        let steps_n = (rng.range(200, 1500) as usize).max(3 * late_n as usize + 50);
+        // probabilistic store, "every N-th write": key -> number of write operations seen when the entry
+        // was first observed expired-and-held
+        let mut ops_total = 0u64;
+        let mut stale_since: std::collections::BTreeMap<String, u64> = Default::default();
         let mut now = wall_ns();
         let mut steps: Vec<Step> = vec![];
         let mut max_len = 0usize;
@@ -493,14 +512,14 @@ pub fn reclaim(seed: u64, n: usize, out: &mut Out) {
                     let maxops = sess.store.field("maxops").unwrap();
                     now as i128 >= next || ops + 1 >= maxops
                 }
-                Cfg::Prob { modulus, .. } => {
-                    let ops = sess.store.field("ops").unwrap() as u64 + 1;
-                    ops.wrapping_mul(2654435761) % modulus == 0
-                }
+                // the N-th, 2N-th, ... write (N < the multiplier, a prime: the trigger `count * multiplier
+                // divisible by N` is `count divisible by N`)
+                Cfg::Prob { modulus, .. } => (sess.store.field("ops").unwrap() as u64 + 1) % modulus == 0,
             };
             let rq = Rq { key: format!("f{i}"), lim, q: 1, now };
             let st = call_emit(&mut sess, &rq, out);
-            let wrote = st.trace.iter().any(|o| o.starts_with("setnx") || o.starts_with("cas"));
+            let st_ops = st.trace.iter().filter(|o| o.starts_with("setnx") || o.starts_with("cas")).count();
+            let wrote = st_ops > 0;
             // did this write sweep?  periodic: next_cleanup moved; adaptive: the op counter was reset
             match &cfg {
                 Cfg::Periodic { interval_ns, .. } => {
@@ -520,7 +539,14 @@ pub fn reclaim(seed: u64, n: usize, out: &mut Out) {
             active.retain(|(w, _)| (*w as i128 + life) > now as i128);
             let ents = sess.store.entries();
             max_len = max_len.max(ents.len());
-            if g && wrote {
+            // probabilistic store: "every N-th write" is judged below as "no N consecutive writes without a
+            // cleanup", which does not fix the phase of the cleanup points
+            let is_prob = matches!(cfg, Cfg::Prob { .. });
+            if g && wrote && is_prob {
+                guaranteed += 1;
+                out.bump("guaranteed_points");
+            }
+            if g && wrote && !is_prob {
                 guaranteed += 1;
                 out.bump("guaranteed_points");
                 let stale: Vec<_> = ents.iter().filter(|(_, _, e)| *e <= now as i128).collect();
@@ -536,6 +562,24 @@ pub fn reclaim(seed: u64, n: usize, out: &mut Out) {
                     out.violation(
                         "C07",
                         format!("{} entries held after a guaranteed cleanup point but only {} keys are active", ents.len(), active.len()),
+                        replay_lines(&cfg, &steps, steps.len() - 1),
+                    );
+                    break;
+                }
+            }
+            if let Cfg::Prob { modulus, .. } = &cfg {
+                // "every N-th write": an entry seen expired and still held after some write must be gone
+                // once N further write operations have run (each of them is at a time >= its expiry)
+                ops_total += st_ops as u64;
+                let held_stale: std::collections::BTreeSet<&String> = ents.iter().filter(|(_, _, e)| *e <= now as i128).map(|(k, _, _)| k).collect();
+                stale_since.retain(|k, _| held_stale.contains(k));
+                for k in &held_stale {
+                    stale_since.entry((*k).clone()).or_insert(ops_total);
+                }
+                if let Some((k, s)) = stale_since.iter().find(|(_, s)| ops_total - **s >= *modulus) {
+                    out.violation(
+                        "C07",
+                        format!("entry {} was already expired {} write operations ago and is still held: no cleanup in {} consecutive writes ({}, every {}th write is a guaranteed cleanup point)", k, ops_total - s, ops_total - s, cfg_line(&cfg), modulus),
                         replay_lines(&cfg, &steps, steps.len() - 1),
                     );
                     break;
@@ -625,7 +669,7 @@ pub fn lattice(seed: u64, n: usize, out: &mut Out) {
     let cfgs = [
         Cfg::Periodic { cap: 16, interval_ns: 1 },
         Cfg::Adaptive { cap: 16, min_ns: 1, max_ns: 2, max_ops: 3 },
-        Cfg::Prob { cap: 16, modulus: 2 },
+        Cfg::Prob { cap: 16, modulus: 2, ops: 0 },
     ];
     let mut sessions: Vec<Session> = cfgs.iter().map(|c| new_session_quiet(c)).collect();
     let mut ctr = 0u64;
@@ -720,7 +764,7 @@ pub fn regress(seed: u64, n: usize, out: &mut Out) {
     let mut rng = Rng::new(seed);
     // corpus first: the witness of the Lean theorem C17_window_bound_J_false, replayed on the real code
     {
-        let cfg = Cfg::Prob { cap: 8, modulus: 1 };
+        let cfg = Cfg::Prob { cap: 8, modulus: 1, ops: 0 };
         let lim = Lim { b: 1, c: 1, p: 1 };
         let mut sess = new_session(&cfg, out);
         let mut steps = vec![];
@@ -749,10 +793,10 @@ pub fn regress(seed: u64, n: usize, out: &mut Out) {
         let cfg = if rng.chance(1, 2) {
             // aggressive cleanup so forgetting interacts with regression
             rng.pick(&[
-                Cfg::Prob { cap: 8, modulus: 1 },
+                Cfg::Prob { cap: 8, modulus: 1, ops: 0 },
                 Cfg::Periodic { cap: 8, interval_ns: 0 },
                 Cfg::Adaptive { cap: 8, min_ns: 0, max_ns: 0, max_ops: 1 },
-                Cfg::Prob { cap: 8, modulus: 2 },
+                Cfg::Prob { cap: 8, modulus: 2, ops: 0 },
             ])
         } else {
             Cfg::random(&mut rng)
